@@ -50,6 +50,10 @@ Toks ==
       [] kind = "keywords" -> Heads[head] \o <<B("U")>> \o Pairs(UKeyNo, n)
       [] kind = "tfields"  -> Heads[head] \o <<B("t")>> \o Pairs(TKeyNo, n)
       [] kind = "tags"     -> Heads[head] \o <<B("x")>> \o WithRepeat(Members(TagNo, IF n > 24 THEN 24 ELSE n))
+      (* ONE keyword with n types, ONE tfield with n values, a tlang with n variants (ordered lists, kept as given)    *)
+      [] kind = "types"    -> Heads[head] \o <<B("u"), B("ca")>> \o Members(AttrNo, n)
+      [] kind = "tvalues"  -> Heads[head] \o <<B("T"), B("h0")>> \o Members(AttrNo, n)
+      [] kind = "tlangvars" -> Heads[head] \o <<B("t"), B("DE"), B("latn")>> \o WithRepeat(Members(VariantNo, n)) \o <<B("h0"), B("hybrid")>>
       [] kind = "all"      -> Heads[head] \o Members(VariantNo, n) \o <<B("t")>> \o Pairs(TKeyNo, n)
                               \o <<B("u")>> \o Members(AttrNo, n) \o Pairs(UKeyNo, n) \o <<B("x")>> \o Members(TagNo, IF n > 24 THEN 24 ELSE n)
       [] kind = "odd"      ->   \* a two-byte character at byte offset n of a long identifier
@@ -57,12 +61,12 @@ Toks ==
                cut == IF n > Len(base) THEN Len(base) ELSE n
            IN Split(SubSeq(base, 1, cut) \o <<195, 129>> \o SubSeq(base, cut + 1, Len(base)))
 
-Kinds6 == {"variants", "attrs", "keywords", "tfields", "tags", "all", "odd"}
+Kinds6 == {"variants", "attrs", "keywords", "tfields", "tags", "all", "odd", "types", "tvalues", "tlangvars"}
 (* us: every third separator is an underscore (the two separators must be    *)
 (* interchangeable at any length, C09 / C13)                                  *)
 Init == kind \in Kinds6 /\ head \in 1..3 /\ n \in 0..(IF kind = "odd" THEN 3 * MaxN ELSE MaxN)
         /\ us \in BOOLEAN /\ (us => kind \in {"variants", "all"} /\ n % 4 = 1)
-        /\ (kind \in {"keywords", "tfields", "attrs", "tags", "all"} => n >= 1)
+        /\ (kind \in {"keywords", "tfields", "attrs", "tags", "all", "types", "tvalues"} => n >= 1)
 Spec == Init /\ [][FALSE]_<<kind, n, head, us>>
 
 RLI  == ParseLITokens(Toks)
@@ -74,6 +78,9 @@ Shape == /\ kind \notin {"odd"} => RLoc.zone = "accept"
          /\ kind = "attrs" => Len(RLoc.val.attrs) = n
          /\ kind = "keywords" => Len(RLoc.val.kw) = n
          /\ kind = "tfields" => Len(RLoc.val.tf) = n
+         /\ kind = "types" => Len(RLoc.val.kw) = 1 /\ Len(RLoc.val.kw[1][2]) = n
+         /\ kind = "tvalues" => Len(RLoc.val.tf) = 1 /\ Len(RLoc.val.tf[1][2]) = n
+         /\ kind = "tlangvars" => RLoc.val.tlang # <<>> /\ Len(RLoc.val.tlang[1].variants) = n
          /\ kind = "odd" => RLoc.zone = "reject" /\ ~RLI.ok
 RoundTrip == RLoc.zone = "accept" =>
                 LET s == SerLoc(RLoc.val)  r == ParseLoc(s) IN r.zone = "accept" /\ r.val = RLoc.val /\ Len(s) <= Len(Join(Toks))
